@@ -140,7 +140,8 @@ def rpEntry (r : Request) (c : HeldCred) (i : Nat) (rr : String × Bool) : Optio
       | none =>
         match info.names with
         | some names =>
-          (names.mapM (fun n => (credValue c n).map (fun re => (n, re)))).map (fun vals =>
+          -- the values go into a map keyed by the requested name: a repeated name yields one entry
+          (names.eraseDups.mapM (fun n => (credValue c n).map (fun re => (n, re)))).map (fun vals =>
             { RpPart.empty with groups := [(rr.1, { idx := i, values := vals })] })
         | none => some RpPart.empty
   else some { RpPart.empty with unrevealed := [(rr.1, i)] }
